@@ -18,115 +18,140 @@
    Positions: [st i] is the state after the first i scheduled steps; step i is taken by thread
    [who i]; starts_at s t j c / ends_at e t j r: step s takes t's j-th call c, step e appends its
    result r.  What the model cannot exhibit: relaxed-memory effects and the fairness of the real
-   RwLock/Mutex implementations (the model interleaves whole lock-protected sections). *)
+   RwLock/Mutex implementations (the model interleaves whole lock-protected sections).
+   FAULTS.  The model has two fault parameters: bad (obstructed blob paths) and ckbad (failing
+   checkpoints); a call may then return the I/O error CErr.  ALL theorems below hold for ARBITRARY
+   bad / ckbad (none assumes NoFaults); what changes is that they speak about results other than CErr:
+   - no read reports BlobDataMissing (CMissing), with or without faults: an I/O error is not a
+     missing blob;
+   - read linearizability is stated for a get whose result is not CErr (hypothesis r <> CErr);
+   - in the write log a call whose entry exists [may_write]: it reports a write (writes c r = true)
+     or it returned CErr after its operation was applied (failed unlink / failed rollover
+     checkpoint); conversely every call with writes c r = true has exactly one entry, where
+     writes (KPut _ _) CErr = false (a put that failed at the rename applied nothing) and
+     writes (KRemove _ / KRemoveRange _ _) CErr = true (a removal only fails after its apply);
+   - a completed put is visible to later gets when neither returned CErr;
+   - C05_no_errors_without_faults: under NoFaults no call returns CErr, so all of the above read as
+     before. *)
 From Cas Require Import Conc.
 From CasProofs Require Import ConcInv ConcProofs ConcReads ConcExamples ConcLin.
 From CasProps Require Import ConcSetting.
 
 Theorem C05_read_never_fails :
-  forall H cmp nops thr0 cas0, ConcSetting H cmp thr0 cas0 ->
-  forall g, reachable H cmp nops thr0 cas0 g ->
+  forall H cmp nops bad ckbad thr0 cas0, ConcSetting H cmp thr0 cas0 ->
+  forall g, reachable H cmp nops bad ckbad thr0 cas0 g ->
   forall t ts, tget (g_thr g) t = Some ts -> ~ In CMissing (t_res ts).
 Proof.
-  intros H cmp nops thr0 cas0 (A & B & C & D & E & F & G & I).
-  exact (ConcProofs.C05_read_never_fails H cmp A B C D nops thr0 E cas0 F G I).
+  intros H cmp nops bad ckbad thr0 cas0 (A & B & C & D & E & F & G & I).
+  exact (ConcProofs.C05_read_never_fails H cmp A B C D nops bad ckbad thr0 E cas0 F G I).
 Qed.
 Print Assumptions C05_read_never_fails.
 
 Theorem C05_read_returns_whole_indexed_content :
-  forall H cmp nops thr0 cas0, ConcSetting H cmp thr0 cas0 ->
-  forall g t ts g' ts' c, reachable H cmp nops thr0 cas0 g ->
-    tget (g_thr g) t = Some ts -> cstep H cmp nops g t = Some g' -> tget (g_thr g') t = Some ts' ->
+  forall H cmp nops bad ckbad thr0 cas0, ConcSetting H cmp thr0 cas0 ->
+  forall g t ts g' ts' c, reachable H cmp nops bad ckbad thr0 cas0 g ->
+    tget (g_thr g) t = Some ts -> cstep H cmp nops bad ckbad g t = Some g' -> tget (g_thr g') t = Some ts' ->
     t_res ts' = t_res ts ++ [CBytes (Some c)] ->
     exists k it,
       (t_pc ts = GOpen k it \/ (t_pc ts = GOpenL k it /\ sm_get cmp (km (g_idx g)) k = Some it))
       /\ sm_get lex_cmp (g_cas g) (ihash it) = Some c /\ H c = ihash it /\ len c = isize it.
 Proof.
-  intros H cmp nops thr0 cas0 (A & B & C & D & E & F & G & I).
-  exact (ConcProofs.C05_read_returns_indexed_content H cmp A B C D nops thr0 E cas0 F G I).
+  intros H cmp nops bad ckbad thr0 cas0 (A & B & C & D & E & F & G & I).
+  exact (ConcProofs.C05_read_returns_indexed_content H cmp A B C D nops bad ckbad thr0 E cas0 F G I).
 Qed.
 Print Assumptions C05_read_returns_whole_indexed_content.
 
 
 Theorem C05_read_linearizable :
-  forall H cmp nops thr0 cas0, ConcSetting H cmp thr0 cas0 ->
+  forall H cmp nops bad ckbad thr0 cas0, ConcSetting H cmp thr0 cas0 ->
   forall (sched : list nat) (t : nat) (cs : list ccall) (ts : tstate) (j : nat) (k : bytes) (r : cres),
     In (t, cs) thr0 -> nth_error cs j = Some (KGet k) ->
-    tget (g_thr (crun H cmp nops (init_c thr0 cas0) sched)) t = Some ts ->
-    nth_error (t_res ts) j = Some r ->
+    tget (g_thr (crun H cmp nops bad ckbad (init_c thr0 cas0) sched)) t = Some ts ->
+    nth_error (t_res ts) j = Some r -> r <> CErr ->
     exists s e q : nat,
-      starts_at H cmp nops thr0 cas0 sched s t j (KGet k) /\
-      ends_at H cmp nops thr0 cas0 sched e t j r /\
+      starts_at H cmp nops bad ckbad thr0 cas0 sched s t j (KGet k) /\
+      ends_at H cmp nops bad ckbad thr0 cas0 sched e t j r /\
       (s < q <= e)%nat /\
-      (r = CBytes None /\ val H cmp nops thr0 cas0 sched q k = None \/
+      (r = CBytes None /\ val H cmp nops bad ckbad thr0 cas0 sched q k = None \/
        (exists x : bytes,
           r = CBytes (Some x) /\
-          val H cmp nops thr0 cas0 sched q k = Some (H x, len x) /\
-          sm_get lex_cmp (g_cas (st H cmp nops thr0 cas0 sched q)) (H x) = Some x)).
+          val H cmp nops bad ckbad thr0 cas0 sched q k = Some (H x, len x) /\
+          sm_get lex_cmp (g_cas (st H cmp nops bad ckbad thr0 cas0 sched q)) (H x) = Some x)).
 Proof.
-  intros H cmp nops thr0 cas0 (A & B & C & D & E & F & G & I).
-  exact (ConcLin.C05_read_linearizable_thr0 H cmp A B C D nops thr0 E cas0 F G I).
+  intros H cmp nops bad ckbad thr0 cas0 (A & B & C & D & E & F & G & I).
+  exact (ConcLin.C05_read_linearizable_thr0 H cmp A B C D nops bad ckbad thr0 E cas0 F G I).
 Qed.
 Print Assumptions C05_read_linearizable.
 
 Theorem C05_final_contents_are_a_sequential_order_of_the_writes :
-  forall H cmp nops thr0 cas0, ConcSetting H cmp thr0 cas0 ->
+  forall H cmp nops bad ckbad thr0 cas0, ConcSetting H cmp thr0 cas0 ->
   forall sched : list nat,
-    all_finished (crun H cmp nops (init_c thr0 cas0) sched) = true ->
-    let ws := wlog H cmp nops thr0 cas0 sched (NN sched) in
-    km (g_idx (crun H cmp nops (init_c thr0 cas0) sched)) = fold_left (kstep cmp) (map wl_o ws) [] /\
+    all_finished (crun H cmp nops bad ckbad (init_c thr0 cas0) sched) = true ->
+    let ws := wlog H cmp nops bad ckbad thr0 cas0 sched (NN sched) in
+    km (g_idx (crun H cmp nops bad ckbad (init_c thr0 cas0) sched)) = fold_left (kstep cmp) (map wl_o ws) [] /\
     Sorted.StronglySorted lt (map wl_p ws) /\
     (forall e : wlent, In e ws ->
        exists (c : ccall) (s e' : nat) (r : cres),
          nth_error (prog thr0 cas0 (wl_t e)) (wl_j e) = Some c /\
-         starts_at H cmp nops thr0 cas0 sched s (wl_t e) (wl_j e) c /\
-         ends_at H cmp nops thr0 cas0 sched e' (wl_t e) (wl_j e) r /\
-         (s < wl_p e < e')%nat /\ writes c r = true /\
-         op_of_call H cmp nops thr0 cas0 sched s (wl_p e) (wl_t e) c (wl_o e)) /\
+         starts_at H cmp nops bad ckbad thr0 cas0 sched s (wl_t e) (wl_j e) c /\
+         ends_at H cmp nops bad ckbad thr0 cas0 sched e' (wl_t e) (wl_j e) r /\
+         (s < wl_p e < e')%nat /\ may_write c r /\
+         op_of_call H cmp nops bad ckbad thr0 cas0 sched s (wl_p e) (wl_t e) c (wl_o e)) /\
     (forall (t j : nat) (c : ccall) (r : cres),
        nth_error (prog thr0 cas0 t) j = Some c ->
-       final_res H cmp nops thr0 cas0 sched t j r -> writes c r = true ->
+       final_res H cmp nops bad ckbad thr0 cas0 sched t j r -> writes c r = true ->
        exists e : wlent, In e ws /\ wl_t e = t /\ wl_j e = j) /\
     (forall e1 e2 : wlent, In e1 ws -> In e2 ws -> wl_t e1 = wl_t e2 -> wl_j e1 = wl_j e2 -> e1 = e2).
 Proof.
-  intros H cmp nops thr0 cas0 (A & B & C & D & E & F & G & I).
-  exact (ConcLin.C05_final_is_linearization H cmp A B C D nops thr0 E cas0 F G I).
+  intros H cmp nops bad ckbad thr0 cas0 (A & B & C & D & E & F & G & I).
+  exact (ConcLin.C05_final_is_linearization H cmp A B C D nops bad ckbad thr0 E cas0 F G I).
 Qed.
 Print Assumptions C05_final_contents_are_a_sequential_order_of_the_writes.
 
 Theorem C05_write_order_respects_real_time :
-  forall H cmp nops thr0 cas0, ConcSetting H cmp thr0 cas0 ->
+  forall H cmp nops bad ckbad thr0 cas0, ConcSetting H cmp thr0 cas0 ->
   forall (sched : list nat) (n : nat) (e1 e2 : wlent) (eA : nat) (rA : cres) (sB : nat) (cB : ccall),
     (n <= NN sched)%nat ->
-    In e1 (wlog H cmp nops thr0 cas0 sched n) -> In e2 (wlog H cmp nops thr0 cas0 sched n) ->
-    ends_at H cmp nops thr0 cas0 sched eA (wl_t e1) (wl_j e1) rA ->
-    starts_at H cmp nops thr0 cas0 sched sB (wl_t e2) (wl_j e2) cB ->
+    In e1 (wlog H cmp nops bad ckbad thr0 cas0 sched n) -> In e2 (wlog H cmp nops bad ckbad thr0 cas0 sched n) ->
+    ends_at H cmp nops bad ckbad thr0 cas0 sched eA (wl_t e1) (wl_j e1) rA ->
+    starts_at H cmp nops bad ckbad thr0 cas0 sched sB (wl_t e2) (wl_j e2) cB ->
     (eA < sB)%nat -> (wl_p e1 < wl_p e2)%nat.
 Proof.
-  intros H cmp nops thr0 cas0 (A & B & C & D & E & F & G & I).
-  exact (ConcLin.C05_write_order_respects_real_time H cmp A B C D nops thr0 E cas0 F G I).
+  intros H cmp nops bad ckbad thr0 cas0 (A & B & C & D & E & F & G & I).
+  exact (ConcLin.C05_write_order_respects_real_time H cmp A B C D nops bad ckbad thr0 E cas0 F G I).
 Qed.
 Print Assumptions C05_write_order_respects_real_time.
 
 Theorem C05_completed_put_is_visible :
-  forall H cmp nops thr0 cas0, ConcSetting H cmp thr0 cas0 ->
+  forall H cmp nops bad ckbad thr0 cas0, ConcSetting H cmp thr0 cas0 ->
   forall (sched : list nat) (t j : nat) (k x : bytes) (e : nat) (rp : cres) (u ju s : nat) (ru : cres),
     nth_error (prog thr0 cas0 t) j = Some (KPut k x) ->
-    ends_at H cmp nops thr0 cas0 sched e t j rp ->
+    ends_at H cmp nops bad ckbad thr0 cas0 sched e t j rp -> rp <> CErr ->
     nth_error (prog thr0 cas0 u) ju = Some (KGet k) ->
-    starts_at H cmp nops thr0 cas0 sched s u ju (KGet k) ->
+    starts_at H cmp nops bad ckbad thr0 cas0 sched s u ju (KGet k) ->
     (e < s)%nat ->
-    final_res H cmp nops thr0 cas0 sched u ju ru ->
+    final_res H cmp nops bad ckbad thr0 cas0 sched u ju ru -> ru <> CErr ->
     exists p q eu : nat,
-      (p < e)%nat /\ ends_at H cmp nops thr0 cas0 sched eu u ju ru /\ (s < q <= eu)%nat /\
-      In {| wl_p := p; wl_t := t; wl_j := j; wl_o := RPut k (H x) (len x) |} (wlog H cmp nops thr0 cas0 sched q) /\
+      (p < e)%nat /\ ends_at H cmp nops bad ckbad thr0 cas0 sched eu u ju ru /\ (s < q <= eu)%nat /\
+      In {| wl_p := p; wl_t := t; wl_j := j; wl_o := RPut k (H x) (len x) |} (wlog H cmp nops bad ckbad thr0 cas0 sched q) /\
       (ru = CBytes (Some x) \/
-       (exists e' : wlent, In e' (wlog H cmp nops thr0 cas0 sched q) /\ (p < wl_p e')%nat /\ touches (wl_o e') k)).
+       (exists e' : wlent, In e' (wlog H cmp nops bad ckbad thr0 cas0 sched q) /\ (p < wl_p e')%nat /\ touches (wl_o e') k)).
 Proof.
-  intros H cmp nops thr0 cas0 (A & B & C & D & E & F & G & I).
-  exact (ConcLin.C05_put_visible H cmp A B C D nops thr0 E cas0 F G I).
+  intros H cmp nops bad ckbad thr0 cas0 (A & B & C & D & E & F & G & I).
+  exact (ConcLin.C05_put_visible H cmp A B C D nops bad ckbad thr0 E cas0 F G I).
 Qed.
 Print Assumptions C05_completed_put_is_visible.
+
+(* without faults no call returns the I/O error *)
+Theorem C05_no_errors_without_faults :
+  forall H cmp nops bad ckbad thr0 cas0, ConcSetting H cmp thr0 cas0 -> NoFaults bad ckbad ->
+  forall g, reachable H cmp nops bad ckbad thr0 cas0 g ->
+  forall t ts, tget (g_thr g) t = Some ts -> ~ In CErr (t_res ts).
+Proof.
+  intros H cmp nops bad ckbad thr0 cas0 (A & B & C & D & E & F & G & I) [NB NC] g.
+  exact (ConcProofs.no_faults_no_errors H cmp A B C D nops bad ckbad thr0 E cas0 F G I g NB NC).
+Qed.
+Print Assumptions C05_no_errors_without_faults.
 
 (* both outcomes of a read racing an overwrite occur, each with its linearization point *)
 Example C05_race_new_value := ConcLin.race1_witness.
